@@ -212,7 +212,18 @@ func (w *Wrapper) Copy() Resource {
 
 	// Attributes
 	for _, attr := range w.Attrs() {
-		nw.Set(attr.Name, w.Get(attr.Name))
+		switch v := w.Get(attr.Name).(type) {
+		case []byte:
+			nv := make([]byte, len(v))
+			_ = copy(nv, v)
+			nw.Set(attr.Name, nv)
+		case *[]byte:
+			nv := make([]byte, len(*v))
+			_ = copy(nv, *v)
+			nw.Set(attr.Name, &nv)
+		default:
+			nw.Set(attr.Name, v)
+		}
 	}
 
 	// Relationships
@@ -220,7 +231,10 @@ func (w *Wrapper) Copy() Resource {
 		if rel.ToOne {
 			nw.Set(rel.FromName, w.Get(rel.FromName).(string))
 		} else {
-			nw.Set(rel.FromName, w.Get(rel.FromName).([]string))
+			ids := w.Get(rel.FromName).([]string)
+			nids := make([]string, len(ids))
+			_ = copy(nids, ids)
+			nw.Set(rel.FromName, nids)
 		}
 	}
 
